@@ -66,7 +66,7 @@ def decorate(rng, cfg, program):
                 if s[1] == 'list_dir':
                     body[i] = ['x', 'mut_q', 'list_dir', s[2], rng.choice(['remove', 'clear', 'append'])]
                 else:
-                    body[i] = ['x', 'mut_q', s[1], s[2], rng.choice(['prune', 'remove_file', 'append', 'outer'])]
+                    body[i] = ['x', 'mut_q', s[1], s[2], rng.choice(['prune', 'remove_file', 'append', 'outer', 'outer_append'])]
             elif s[0] == 'ifq':
                 walk(s[3])
                 walk(s[4])
@@ -78,7 +78,7 @@ def decorate(rng, cfg, program):
         if rng.random() < 0.5:
             b.insert(rng.randint(0, len(b)),
                      ['x', 'mut_q', rng.choice(['list_dir', 'walk']), rand_path(rng, cfg, 2, allow_root=True),
-                      rng.choice(['remove', 'prune', 'clear', 'append'])])
+                      rng.choice(['remove', 'prune', 'clear', 'append', 'outer_append'])])
     return program
 
 
